@@ -385,7 +385,7 @@ fn interpolate(lit: &str, exprs: &[String]) -> String {
                 }
             }
         }
-        back_slash = c == '\\';
+        back_slash = !back_slash && c == '\\';
     }
 
     out.push_str(&current);
